@@ -1025,6 +1025,7 @@ class PX:
                 work.append(s2)
         if first is None:
             # the in-place state was infeasible; stop this path
+            self._end("infeasible", st, where=(info.name, fr.bb))
             return None
         return first
 
@@ -1249,6 +1250,9 @@ class PX:
             else:
                 self.forks += 1
                 work.append(s2)
+        if result == "end" and not any(True for _ in ()):
+            # every outcome of the model was infeasible on this path: record it (fail-closed rules can see it)
+            self._end("infeasible", st, where=(fr.info.name, fr.bb))
         return result
 
 
